@@ -89,6 +89,8 @@ type script struct {
 	dialCost int        // deviation cost of a non-default dial outcome
 	idle     int        // MaxIdleFires
 	delta    int        // BoundDelta
+	unlock   bool       // lock releases are scheduling points too (vsched.Config.UnlockPoints): exposes windows between a
+	// critical section and a following un-instrumented operation such as a context cancel
 }
 
 type endSnap struct {
@@ -561,8 +563,6 @@ func (x *exec) violations() []*eng.Violation {
 // defect cannot hide another in the same execution.
 func explained(v *eng.Violation) bool {
 	switch v.Symptom {
-	case "reconnect-after-stop":
-		return v.Features["timer_created_after_call"] == "true" && v.Features["added_after_call"] == "false"
 	case "no-reconnect-scheduled":
 		return v.Features["dropped_before_stopIfConnected"] == "true" && v.Features["timer"] == "fired-not-rearmed"
 	}
@@ -654,22 +654,22 @@ func scripts(thorough bool) []*script {
 	okf := []string{"ok", "fail"}
 	ss := []*script{
 		// Start spawns `go startIfDisconnected`; Stop follows immediately
-		{name: "start-stop", pre: []string{"add:0:0"}, threads: [][]string{{"start", "stop"}}, dial: fail, dialCost: 1, idle: 4},
+		{name: "start-stop", unlock: true, pre: []string{"add:0:0"}, threads: [][]string{{"start", "stop"}}, dial: fail, dialCost: 1, idle: 4},
 		// Start and Stop from different threads (either may win)
-		{name: "start-vs-stop", pre: []string{"add:0:0"}, threads: [][]string{{"start"}, {"stop"}}, dial: fail, dialCost: 1, idle: 4},
+		{name: "start-vs-stop", unlock: true, pre: []string{"add:0:0"}, threads: [][]string{{"start"}, {"stop"}}, dial: fail, dialCost: 1, idle: 4},
 		// a Disconnected notification races with Stop
-		{name: "disc-vs-stop", connInit: []int{0}, pre: []string{"add:0:0", "start", "idle"}, threads: [][]string{{"disc:0"}, {"stop"}}, dial: fail, dialCost: 1, idle: 4},
+		{name: "disc-vs-stop", unlock: true, connInit: []int{0}, pre: []string{"add:0:0", "start", "idle"}, threads: [][]string{{"disc:0"}, {"stop"}}, dial: fail, dialCost: 1, idle: 4},
 		// a Connected notification races with Stop while a reconnect timer is armed
-		{name: "conn-vs-stop", pre: []string{"add:0:0", "start", "idle"}, threads: [][]string{{"conn:0"}, {"stop"}}, dial: fail, dialCost: 1, idle: 4},
+		{name: "conn-vs-stop", unlock: true, pre: []string{"add:0:0", "start", "idle"}, threads: [][]string{{"conn:0"}, {"stop"}}, dial: fail, dialCost: 1, idle: 4},
 		// Stop while the reconnect loop is going (timer armed / firing / dial in flight); 7500 ms is the first reconnect deadline
-		{name: "stop-during-reconnect", pre: []string{"add:0:0", "start", "idle"}, threads: [][]string{{"sleep:7500", "stop"}}, dial: fail, dialCost: 1, idle: 6},
+		{name: "stop-during-reconnect", unlock: true, pre: []string{"add:0:0", "start", "idle"}, threads: [][]string{{"sleep:7500", "stop"}}, dial: fail, dialCost: 1, idle: 6},
 		{name: "stop-after-first-dial", pre: []string{"add:0:0", "start", "idle"}, threads: [][]string{{"sleep:8000", "stop"}}, dial: fail, dialCost: 1, idle: 6},
 		// AddPeer on a running service spawns `go startIfDisconnected`; RemovePeer follows immediately
-		{name: "add-remove", pre: []string{"start"}, threads: [][]string{{"add:0:0", "remove:0"}}, dial: fail, dialCost: 1, idle: 4},
+		{name: "add-remove", unlock: true, pre: []string{"start"}, threads: [][]string{{"add:0:0", "remove:0"}}, dial: fail, dialCost: 1, idle: 4},
 		// remove while reconnecting, then add the same peer again with a new address
 		{name: "remove-readd", pre: []string{"start", "add:0:0", "idle"}, threads: [][]string{{"sleep:7500", "remove:0", "add:0:1"}}, dial: fail, dialCost: 1, idle: 6},
 		// RemovePeer races with a Disconnected notification
-		{name: "disc-vs-remove", connInit: []int{0}, pre: []string{"start", "add:0:0", "idle"}, threads: [][]string{{"disc:0"}, {"remove:0"}}, dial: fail, dialCost: 1, idle: 4},
+		{name: "disc-vs-remove", unlock: true, connInit: []int{0}, pre: []string{"start", "add:0:0", "idle"}, threads: [][]string{{"disc:0"}, {"remove:0"}}, dial: fail, dialCost: 1, idle: 4},
 		// two peers: removing one must leave the other's reconnect schedule intact
 		{name: "two-peers-remove-one", pre: []string{"start", "add:0:0", "add:1:1", "idle"}, threads: [][]string{{"sleep:7500", "remove:0"}}, dial: fail, dialCost: 1, idle: 6, delta: -1},
 		// plain reconnect loop with failing / succeeding dials and all vrand answers: part (i) at the horizon
@@ -688,7 +688,7 @@ func scripts(thorough bool) []*script {
 		{name: "stop-before-start", pre: []string{"add:0:0"}, threads: [][]string{{"stop", "start", "add:1:1"}}, dial: fail, dialCost: 1, idle: 4},
 		// AddPeer racing with Start and with Stop
 		{name: "add-vs-start", threads: [][]string{{"add:0:0"}, {"start"}}, dial: fail, dialCost: 1, idle: 4},
-		{name: "add-vs-stop", pre: []string{"start"}, threads: [][]string{{"add:0:0"}, {"stop"}}, dial: fail, dialCost: 1, idle: 4},
+		{name: "add-vs-stop", unlock: true, pre: []string{"start"}, threads: [][]string{{"add:0:0"}, {"stop"}}, dial: fail, dialCost: 1, idle: 4},
 	}
 	if thorough {
 		ss = append(ss,
@@ -706,7 +706,7 @@ func scenarios(thorough bool) []*vexp.Scenario {
 		s := s
 		out = append(out, &vexp.Scenario{
 			Name: s.name, BoundDelta: s.delta,
-			Cfg: vsched.Config{MaxSteps: 20000, MaxIdleFires: s.idle, SelectCost: 1},
+			Cfg: vsched.Config{MaxSteps: 20000, MaxIdleFires: s.idle, SelectCost: 1, UnlockPoints: s.unlock},
 			New: func() vexp.Exec { return &exec{sc: s} },
 		})
 	}
